@@ -17,6 +17,14 @@ fn history(rng: &mut Rng, queries: &[String], len: usize) -> Vec<String> {
             out.push(q); // immediate repetition: served from the cache
         }
     }
+    // the whole-file queries (strtab, symbol tables, dynamic, versions) are few and cheap: each is in every
+    // other history, at a random position
+    for q in pool.iter().filter(|q| matches!(q.chars().next(), Some('T' | 'Y' | 'D' | 'd' | 'V'))) {
+        if !out.contains(*q) && rng.chance(1, 2) {
+            let at = rng.below(out.len() as u64 + 1) as usize;
+            out.insert(at, (*q).clone());
+        }
+    }
     out
 }
 
@@ -142,29 +150,46 @@ pub fn gen_streamfault(rng: &mut Rng, n: usize, thorough: bool) -> Vec<Case> {
     for _ in 0..n {
         let fc = rand_object(rng, true);
         let ops = history(rng, &fc.queries, if thorough { 10 } else { 6 });
-        let opss = if ops.is_empty() { "-".to_string() } else { ops.join(",") };
-        let h = hex(&fc.built.bytes);
-        // number of I/O calls of the fault-free run, measured on the implementation
-        let clean = crate::stream::run_stream("any", "-", &opss, &fc.built.bytes);
-        let ncalls = clean.io_calls;
-        let cap = if thorough { ncalls } else { ncalls.min(40) };
-        for k in 0..cap {
-            for kind in ["f", "e"] {
-                let mut s: Vec<&str> = vec!["o"; k];
-                s.push(kind);
-                out.push((format!("stream any {} {} {}", s.join(","), opss, h), "faults|transient".into()));
-            }
-            if k % 3 == 0 {
-                let mut s: Vec<&str> = vec!["o"; k];
-                for _ in 0..60 { s.push("f"); }
-                out.push((format!("stream any {} {} {}", s.join(","), opss, h), "faults|permanent".into()));
+        let mut histories = vec![if ops.is_empty() { "-".to_string() } else { ops.join(",") }];
+        // directed: read A, then (faulted) C elsewhere, then B which starts exactly where A ended — a reader that
+        // trusts a remembered position instead of seeking is exposed by a transient fault on C
+        let rg = &fc.built.sec_range;
+        'outer: for a in 1..rg.len() {
+            if rg[a].1 == 0 { continue; }
+            for b in 1..rg.len() {
+                if b == a || rg[b].1 == 0 || rg[b].0 != rg[a].0 + rg[a].1 { continue; }
+                for c in 1..rg.len() {
+                    if c == a || c == b || rg[c].1 == 0 || rg[c].0 == rg[a].0 + rg[a].1 { continue; }
+                    histories.push(format!("S{},S{},S{}", a, c, b));
+                    histories.push(format!("S{},S{},S{},S{}", a, c, c, b));
+                    break 'outer;
+                }
             }
         }
-        for _ in 0..4 {
-            let s: Vec<String> = (0..ncalls + 5)
-                .map(|_| match rng.below(10) { 0 => "f".into(), 1 => "e".into(), 2 => "i".into(), 3 => format!("s{}", rng.range(1, 5)), _ => "o".into() })
-                .collect();
-            out.push((format!("stream any {} {} {}", s.join(","), opss, h), "faults|multi".into()));
+        let h = hex(&fc.built.bytes);
+        for opss in histories {
+            // number of I/O calls of the fault-free run, measured on the implementation
+            let clean = crate::stream::run_stream("any", "-", &opss, &fc.built.bytes);
+            let ncalls = clean.io_calls;
+            let cap = if thorough { ncalls } else { ncalls.min(40) };
+            for k in 0..cap {
+                for kind in ["f", "e"] {
+                    let mut s: Vec<&str> = vec!["o"; k];
+                    s.push(kind);
+                    out.push((format!("stream any {} {} {}", s.join(","), opss, h), "faults|transient".into()));
+                }
+                if k % 3 == 0 {
+                    let mut s: Vec<&str> = vec!["o"; k];
+                    for _ in 0..60 { s.push("f"); }
+                    out.push((format!("stream any {} {} {}", s.join(","), opss, h), "faults|permanent".into()));
+                }
+            }
+            for _ in 0..4 {
+                let s: Vec<String> = (0..ncalls + 5)
+                    .map(|_| match rng.below(10) { 0 => "f".into(), 1 => "e".into(), 2 => "i".into(), 3 => format!("s{}", rng.range(1, 5)), _ => "o".into() })
+                    .collect();
+                out.push((format!("stream any {} {} {}", s.join(","), opss, h), "faults|multi".into()));
+            }
         }
     }
     out
